@@ -674,7 +674,7 @@ class PortNamespace(collections.abc.MutableMapping, Port):
         breadcrumbs_local = (*breadcrumbs, self.name)
         message: Optional[str]
 
-        if not port_values:
+        if port_values is None or port_values is UNSPECIFIED:
             port_values = {}
 
         if not isinstance(port_values, collections.abc.Mapping):
@@ -753,6 +753,11 @@ class PortNamespace(collections.abc.MutableMapping, Port):
                 port_value = port_values[name]
 
             if isinstance(port, PortNamespace):
+                if not isinstance(port_value, collections.abc.Mapping):
+                    # Not the value of a namespace: left as it is, for the validation to refuse it
+                    port_values[name] = port_value
+                    continue
+
                 if isinstance(port_value, collections.abc.Mapping) and not isinstance(
                     port_value, collections.abc.MutableMapping
                 ):
